@@ -172,7 +172,19 @@ func checkFormat(c *core.Ctx, format string, args map[string]string, viaConst bo
 		c.Violation(k, "Format(%+q, %v)=%+q, independent substitution gives %+q", format, args, res.String(), want)
 		return
 	}
-	if refs.DotDotWithArg(res.String(), spans) {
+	// scheme and authority are those of the format, whatever the arguments are (also empty
+	// ones): compare with the format in which every marker is one unreserved character
+	maskedArgs := map[string]string{}
+	for a := range args {
+		maskedArgs[a] = "x"
+	}
+	mf, _, _ := substitute(format, maskedArgs)
+	ms, mr := rfc3986.FindStringSubmatch(strings.ReplaceAll(mf, "\\", "/")), rfc3986.FindStringSubmatch(strings.ReplaceAll(res.String(), "\\", "/"))
+	if !strings.EqualFold(ms[2], mr[2]) || ms[3] != mr[3] || ms[4] != mr[4] {
+		c.Violation(k, "Format(%+q, %v)=%+q: scheme/authority %q%q differ from those of the format, %q%q", format, args, res.String(), mr[1], mr[3], ms[1], ms[3])
+		return
+	}
+	if refs.DotDotTouchingArg(res.String(), spans) {
 		c.Violation(k, "Format(%+q, %v)=%+q: arguments take part in a '..' path segment", format, args, res.String())
 		return
 	}
